@@ -146,6 +146,15 @@ def random_script(rng, level, n):
         if late is not None and i == n // 2:
             bind(late)
             late = None
+        if level == "icpt" and i in (n // 3, 2 * n // 3) and rng.random() < 0.6:
+            # a stream is unbound and bound again (a replaced track): the statistics stay a recount of everything observed
+            s = rng.choice([x for x in dirs if dirs[x]])
+            d = rng.choice(sorted(dirs[s]))
+            steps.append(step("unbind", s=s, rate=rng.choice(RATES), d=d))
+            if rng.random() < 0.8 or sum(1 for x in dirs if d in dirs[x]) < 2:
+                steps.append(step("bind", s=s, rate=rng.choice(RATES), d=d))
+            else:
+                dirs[s].discard(d)
         r = rng.random()
         readers = [s for s in dirs if "r" in dirs[s]]
         writers = [s for s in dirs if "l" in dirs[s]]
